@@ -9,6 +9,7 @@ import Model.C13.Generate
 import Model.C13.Dispatch
 import Model.C13.Entry
 import Model.C13.ElectrumOld
+import Model.C13.ElectrumSearch
 import Generated.Slip39
 import Generated.Mnemonic
 open Btc Btc.C13
@@ -169,6 +170,34 @@ def handle (toks : List String) : String :=
       let t := mnemonicType o (seedVersion hmacSha512 s) n
       if t.isEmpty then "err value" else "ok " ++ t
     | _, _, _ => "bad-op"
+  | ["electrum.search", typ, base, e, _lang, cands] =>
+    -- cands: `flag:hexsentence` for the candidates e+1, e+2, … (what each sentence spells; everything else —
+    -- indexes, BIP39 skip, HMAC digits, prefix, word count, read-back — is computed here)
+    let cand? (s : String) : Option (Bool × Bytes) :=
+      match s.splitOn ":" with
+      | [f, h] => do some (← bool? f, ← fromHex? h)
+      | _ => none
+    match base.toNat?, e.toNat?, (cands.splitOn ";").mapM cand? with
+    | some base, some e, some cs =>
+      if base < 2 ∨ base > 2048 then "bad-op" else
+      let arr := cs.toArray
+      let isOld (c : Nat) : Bool := if c ≤ e then false else match arr[c - e - 1]? with
+        | some (f, _) => f
+        | none => false
+      let digits (c : Nat) : List Nat := if c ≤ e then [] else match arr[c - e - 1]? with
+        | some (_, s) => seedVersion hmacSha512 s
+        | none => []
+      match electrumGenerate sha256 isOld digits base typ arr.size e with
+      | .ok c => s!"ok {c} " ++ showNats (electrumIndexes c base)
+      | .error .fuel => "err fuel"
+      | .error _ => "err value"
+    | _, _, _ => "bad-op"
+  | ["electrum.isbip39", idx, base, _lang] =>
+    match natList? idx, base.toNat? with
+    | some idx, some base =>
+      if base < 2 ∨ base > 2048 ∨ ¬ idx.all (· < base) then "bad-op"
+      else if electrumIsBip39 sha256 idx base then "ok True" else "ok False"
+    | _, _ => "bad-op"
   | ["electrum.old.enc", groups] =>
     match natList? groups with
     | some gs => "ok " ++ showNats (oldMnemonicIndexes Gen.Mnemonic.OLD_BASE gs)
